@@ -442,8 +442,6 @@ FALLBACK = {
     "symlink_set_local": c_strs(["_NodeMixin__parent", "_NodeMixin__children", "parent", "children", "target"]),
     "dict_skip_keys": c_strs(["_NodeMixin__children", "_NodeMixin__parent"]),
     "assertions_default": "false",
-    "mixin_hunks": c_strs(["only_light:=__slots__", "typecheck:__check_children@staticmethod",
-                           "only_node:anchestors", "typecheck:parent.setter"]),
 }
 TYPES = {
     "maxcache": "nat", "cache_key": "list keyfield", "cache_clear": "cacheclear",
@@ -456,7 +454,7 @@ TYPES = {
     "dot_esc_class": "list N", "dot_esc_prefix": "list N",
     "mermaid_esc_class": "list N", "mermaid_esc_prefix": "list N",
     "symlink_get_local": "list (list N)", "symlink_set_local": "list (list N)",
-    "dict_skip_keys": "list (list N)", "assertions_default": "bool", "mixin_hunks": "list (list N)",
+    "dict_skip_keys": "list (list N)", "assertions_default": "bool",
 }
 # which properties' proof obligations mention which constants
 USED_BY = {
@@ -468,7 +466,7 @@ USED_BY = {
     "style_empty_char": ["C09"],
     "dot_esc_class": ["C12"], "dot_esc_prefix": ["C12"], "mermaid_esc_class": ["C13"], "mermaid_esc_prefix": ["C13"],
     "symlink_get_local": ["C20"], "symlink_set_local": ["C20"], "dict_skip_keys": ["C10"],
-    "assertions_default": ["C01"], "mixin_hunks": ["C18"],
+    "assertions_default": ["C01"],
 }
 
 
@@ -509,7 +507,6 @@ def run_items(repo):
     multi(["symlink_get_local", "symlink_set_local"], lambda: x_symlink(repo))
     single("dict_skip_keys", lambda: x_dict_skip(repo))
     single("assertions_default", lambda: x_assertions_default(repo))
-    single("mixin_hunks", lambda: x_mixin_hunks(repo))
     return values, failed
 
 
